@@ -484,6 +484,39 @@ def run_case(prop, name, spec, confkw, tier, src):
                            [sc.cond], ('c14', kind), src)
             out.queries += d.stats['queries']
             out.solver_s += d.stats['solver_s']
+        # the same question for a callable decorated *now*: its check expressions come from caches the
+        # history may have filled (decoration-side caches are separate from the door API's)
+        if not _has_str(target):
+            from .core import make_identity
+            rec_dh = _wrapper_now(target, tkw)
+            first = second = None
+            if rec_dh is not None:
+                ga = Generated()
+                ga.hint, ga.confkw, ga.wrapper = target, tkw, rec_dh
+                first = Encoding(ga, 3, node=node)
+            with fresh_beartype():
+                rec_df = _wrapper_now(target, tkw)
+                if rec_df is not None and first is not None:
+                    gb = Generated()
+                    gb.hint, gb.confkw, gb.wrapper = target, tkw, rec_df
+                    second = Encoding(gb, None, node=node, share=first)
+            out.obligations += 1
+            if (rec_dh is None) != (rec_df is None):
+                out.findings.append(_finding(name, src, f'decorating after the history {"does not wrap" if rec_dh is None else "wraps"} the callable, '
+                                                        f'a fresh beartype {"does not" if rec_df is None else "does"}'))
+            else:
+                out.discharged += 1
+                if first is not None and second is not None:
+                    first.assume.extend(second.assume)
+                    for r in second.results.values():
+                        first.results[id(r)] = r
+                    d = Discharger(first)
+                    for prog in ('param', 'return'):
+                        pre = [first.guards['param'], second.guards['param']] if prog == 'return' else []
+                        oblige(out, d, first, 'C14', f'{prog} check of a callable decorated after the history differs from one decorated by a fresh beartype',
+                               pre + [z3.Xor(first.guards[prog], second.guards[prog])], ('c14', prog), src)
+                    out.queries += d.stats['queries']
+                    out.solver_s += d.stats['solver_s']
         out.nontrivial = True
         out.sample = {'history_script': name, 'target': repr(target)[:120], 'note': objs.get('note', ''),
                       'obligation': 'unsat(checker_after_history(x,r) xor checker_fresh(x,r))'}
@@ -493,6 +526,22 @@ def run_case(prop, name, spec, confkw, tier, src):
         out.inconclusive.append('harness exception: ' + traceback.format_exc()[-700:])
     out.wall = time.time() - t0
     return out
+
+
+def _wrapper_now(target, confkw):
+    """Record of the wrapper the currently imported beartype generates for `def ident(x: T) -> T` (None if it
+    returns the callable unwrapped)."""
+    from .core import make_identity
+    from .capture import capture_wrapper
+    from beartype import BeartypeConf
+    import warnings as _w
+    with _w.catch_warnings():
+        _w.simplefilter('ignore')
+        try:
+            _dec, rec = capture_wrapper(make_identity(target), _conf(confkw) or BeartypeConf())
+        except Exception:
+            return None
+    return rec
 
 
 def _is_violation(e):
@@ -545,6 +594,12 @@ def replay_c14(p):
             obj = universe.build(p['obj'])
             kw = {'conf': _conf(tkw)} if tkw else {}
             try:
+                if p['program'] in ('param', 'return'):
+                    from .core import make_identity
+                    from beartype import beartype, BeartypeConf
+                    f = beartype(conf=kw.get('conf') or BeartypeConf())(make_identity(target))
+                    f(obj)
+                    return 'accept'
                 if p['program'] == 'tester':
                     return 'accept' if is_bearable(obj, target, **kw) else 'reject'
                 die_if_unbearable(obj, target, **kw)
